@@ -7,7 +7,6 @@
      hyperband_promotion.py             _find_promotable_trial  (sign = 1 - 2 * (mode == "min"))
    No proofs here (proofs/ModeCoresProofs.v). *)
 From Verif Require Import model.Base model.Rung.
-From Verif Require model.Pareto.
 Open Scope Q_scope.
 
 (* ---- stable sorts (Python sorted is stable; reverse=True keeps the original order of equal keys) ---- *)
@@ -344,25 +343,55 @@ Fixpoint prun (md : mode) (max_t : Z) (sys : psys) (evs : list pevent) : psys * 
   | ev :: rest => let '(s, o) := pstep md max_t sys ev in let '(s', os) := prun md max_t s rest in (s', o :: os)
   end.
 
-(* ---- MOASHA shell around the bracket of model/Pareto.v: on_trial_result and on_trial_complete both
-   hand the SIGN-NORMALISED metrics self._metric_dict(result) to bracket.on_result (moasha.py) --------
-   one bracket; [prio] is the MOPriority callable; a complete call ignores the decision *)
+(* ---- MOASHA (moasha.py): on_trial_result and on_trial_complete both hand the SIGN-NORMALISED metrics
+   self._metric_dict(result) to _Bracket.on_result. Self-contained minimal model of one bracket (the
+   Pareto-rank model of C19 lives in model/Pareto.v and is not used here); [prio] is the MOPriority
+   callable, an arbitrary function of the matrix of recorded (signed) metrics --------------------------- *)
+Record mo_rung := { mo_milestone : Q; mo_recorded : list (Z * list Q) }.   (* rungs: highest milestone first *)
+
+Definition mo_in_rung (t : Z) (r : mo_rung) : bool := existsb (fun e => Z.eqb (fst e) t) (mo_recorded r).
+
+(* ranks = np.searchsorted(sorted(priorities), priorities) / len(priorities); new_priority_rank = ranks[-1] > 1 / rf *)
+Definition mo_stop (rf : Q) (priorities : list Q) : bool :=
+  let own := last priorities 0 in
+  let rank := inject_Z (Z.of_nat (length (filter (fun p => Qltb p own) priorities)))
+              / inject_Z (Z.of_nat (length priorities)) in
+  Qltb (1 / rf) rank.
+
+(* _Bracket.on_result; true = CONTINUE, false = STOP *)
+Fixpoint mo_bracket_on_result (prio : list (list Q) -> list Q) (rf : Q) (b : list mo_rung) (t : Z) (cur_iter : Q)
+         (m : list Q) : list mo_rung * bool :=
+  match b with
+  | [] => ([], true)
+  | r :: b' =>
+      if Qltb cur_iter (mo_milestone r) || mo_in_rung t r then
+        let res := mo_bracket_on_result prio rf b' t cur_iter m in (r :: fst res, snd res)
+      else
+        let continue_ :=
+          match mo_recorded r with
+          | [] => true
+          | _ => negb (mo_stop rf (prio (map snd (mo_recorded r) ++ [m])))
+          end in
+        ({| mo_milestone := mo_milestone r; mo_recorded := mo_recorded r ++ [(t, m)] |} :: b', continue_)
+  end.
+
 Inductive mo_event :=
 | MoResult (t : Z) (cur_iter : Q) (vals : list Q)      (* on_trial_result *)
 | MoComplete (t : Z) (cur_iter : Q) (vals : list Q).   (* on_trial_complete *)
 
-Definition mo_step (prio : list Pareto.vec -> list Q) (rf max_t : Q) (modes : list mode)
-           (b : Pareto.bracket) (ev : mo_event) : Pareto.bracket * option Pareto.decision :=
+(* Some true = CONTINUE, Some false = STOP, None = on_trial_complete (no decision returned) *)
+Definition mo_step (prio : list (list Q) -> list Q) (rf max_t : Q) (modes : list mode)
+           (b : list mo_rung) (ev : mo_event) : list mo_rung * option bool :=
   match ev with
   | MoResult t it vals =>
-      let r := Pareto.moasha_on_trial_result prio rf max_t b t it (moasha_metric_dict modes vals) in
-      (fst r, Some (snd r))
+      if Qleb max_t it then (b, Some false)
+      else let r := mo_bracket_on_result prio rf b t it (moasha_metric_dict modes vals) in (fst r, Some (snd r))
   | MoComplete t it vals =>
-      (fst (Pareto.bracket_on_result prio rf b t it (moasha_metric_dict modes vals)), None)
+      (fst (mo_bracket_on_result prio rf b t it (moasha_metric_dict modes vals)), None)
   end.
 
-Fixpoint mo_run (prio : list Pareto.vec -> list Q) (rf max_t : Q) (modes : list mode)
-         (b : Pareto.bracket) (evs : list mo_event) : Pareto.bracket * list (option Pareto.decision) :=
+Fixpoint mo_run (prio : list (list Q) -> list Q) (rf max_t : Q) (modes : list mode)
+         (b : list mo_rung) (evs : list mo_event) : list mo_rung * list (option bool) :=
   match evs with
   | [] => (b, [])
   | ev :: rest =>
